@@ -193,6 +193,28 @@ def _i_electrum_bits(idx, base, lang):
     return "ok " + bits_tok(electrum._bin_str_entropy_from_mnemonic(m, lang))
 
 
+_OLD_WL: list = []
+
+
+def _old_wl():
+    if not _OLD_WL:
+        _OLD_WL.extend(electrum._old_wordlist())
+    return _OLD_WL
+
+
+def _i_old_enc(groups):
+    gs = unnats(groups)
+    if any(g >= 2 ** 32 for g in gs):
+        return "bad-line"
+    wi = {x: i for i, x in enumerate(_old_wl())}
+    return "ok " + nats(wi[x] for x in electrum.old_mnemonic_from_hex_seed("".join(f"{g:08x}" for g in gs)).split())
+
+
+def _i_old_dec(idx):
+    wl = _old_wl()
+    return "ok " + electrum.hex_seed_from_old_mnemonic(" ".join(wl[i] for i in unnats(idx)))
+
+
 def _child_key(xprv, path) -> bytes:
     return bip32.BIP32KeyData.b58decode(bip32.derive(xprv, path)).key[1:]
 
@@ -201,6 +223,31 @@ def _i_bip85_entropy(key, xprv, path):
     if _child_key(xprv, path) != unhx(key):
         return "bad-line"
     return "ok " + hx(bip85.entropy_from_der_path(xprv, path))
+
+
+def _i_bip85_hex(key, n, xprv, index):
+    if 16 <= int(n) <= 64 and _child_key(xprv, f"m/83696968h/128169h/{n}h/{index}h") != unhx(key):
+        return "bad-line"           # the key in the line is the child at the path THE BIP defines
+    return "ok " + hx(bip85.bytes_entropy_from_root_key(xprv, int(n), int(index)))
+
+
+_B85_SIZED = {"bytes_entropy_from_root_key": (lambda r, n, i: bip85.bytes_entropy_from_root_key(r, n, i), 128169),
+              "base64_password_from_root_key": (lambda r, n, i: bip85.base64_password_from_root_key(r, n, i).encode(), 707764),
+              "base85_password_from_root_key": (lambda r, n, i: bip85.base85_password_from_root_key(r, n, i).encode(), 707785)}
+_B85_ROOT = "xprv9s21ZrQH143K3EuJY8RRCWBLXFgB9WCcFKsv28bcaDy9LUZtXgHe9q9V8kLi4aJ6H8r5X2wu9gz2ZYXbAhtsAcJKX8Z1Ackw6Wq1oi8DEEk"     # root of the seed 00 01 .. 1f
+
+
+def _i_bip85_sized(fn, size, index):
+    """btclib's path observed through its behaviour: the application number whose BIP path reproduces the output."""
+    import base64
+    f, _app = _B85_SIZED[fn]
+    size, index = int(size), int(index)
+    got = f(_B85_ROOT, size, index)
+    enc = {"bytes_entropy_from_root_key": lambda e: e, "base64_password_from_root_key": base64.b64encode,
+           "base85_password_from_root_key": base64.b85encode}[fn]
+    apps = [a for a in (2, 32, 39, 128169, 707764, 707785, 89101)
+            if enc(_bip85_entropy(_B85_ROOT, f"m/83696968h/{a}h/{size}h/{index}h"))[:size] == got]
+    return f"ok 83696968,{apps[0]},{size},{index}" if len(apps) == 1 else f"ok no-single-application:{apps}"
 
 
 def _i_bip85_bip39(key, words, xprv, lang, index):
@@ -323,8 +370,8 @@ IMPL = {
     "slip39.feistel": _i_feistel, "slip39.master": _i_master, "entropy.to_idx": _i_to_idx,
     "entropy.from_idx": _i_from_idx, "bip39.idx": _i_bip39_idx, "bip39.entropy": _i_bip39_entropy,
     "bip39.seed": _i_bip39_seed, "electrum.seed": _i_electrum_seed, "electrum.type": _i_electrum_type,
-    "electrum.idx": _i_electrum_idx, "electrum.bits": _i_electrum_bits, "bip85.entropy": _i_bip85_entropy,
-    "bip85.bip39": _i_bip85_bip39, "dispatch.all": _i_dispatch_all, "slip39.generate": _i_generate,
+    "electrum.old.enc": _i_old_enc, "electrum.old.dec": _i_old_dec, "electrum.idx": _i_electrum_idx, "electrum.bits": _i_electrum_bits, "bip85.entropy": _i_bip85_entropy,
+    "bip85.bip39": _i_bip85_bip39, "bip85.hex": _i_bip85_hex, "bip85.sized": _i_bip85_sized, "dispatch.all": _i_dispatch_all, "slip39.generate": _i_generate,
 }
 
 
@@ -666,6 +713,47 @@ def _o_bip39_text(w):
     return True, f"{lang} {'canonical' if nf == canon else 'blanks'}"
 
 
+def _o_electrum_old(w):
+    """pre-2.0 seeds against Electrum's old_mnemonic / Old_KeyStore rewritten: sentence, hex seed back (from any
+    spelling), recognised as `old` and never as a versioned seed, stretched key and master public key."""
+    hs = w["hex"]
+    want = T.ref_old_encode(hs)
+    m = electrum.old_mnemonic_from_hex_seed(hs)
+    if m.split() != want:
+        return False, f"sentence of the seed {hs} is not mn_encode's: {m!r}"
+    if len(want) not in (12, 24):
+        try:
+            electrum.hex_seed_from_old_mnemonic(m)
+        except BTClibValueError:
+            return True, f"{len(want)} words: encoded, not a seed"
+        return False, f"a {len(want)}-word sentence is read as a pre-2.0 seed"
+    for sp in [m] + w.get("spellings", []):
+        back = electrum.hex_seed_from_old_mnemonic(sp)
+        if back != hs:
+            return False, f"{sp!r} decodes to {back}, it was made from {hs}"
+        if electrum.version_from_mnemonic(sp)[0] != "old" or T.ref_electrum_seed_type(sp) != "old":
+            return False, f"{sp!r} is not recognised as a pre-2.0 seed"
+        for f in (electrum.mxprv_from_mnemonic, electrum.entropy_from_mnemonic):
+            try:
+                f(sp)
+            except BTClibValueError:
+                continue
+            return False, f"{f.__name__} answers for the pre-2.0 seed {sp!r}"
+    if w.get("stretch"):
+        k, mpk = T.ref_old_master(hs)
+        for sp in (hs, m) if mpk is not None else ():
+            if electrum.old_master_prv_key_from_mnemonic(sp) != k:
+                return False, f"master private key of {sp!r} is not 100 000 rounds of sha256(digest + hex seed)"
+            if electrum.old_master_pub_key_from_mnemonic(sp) != mpk:
+                return False, f"master public key of {sp!r} is not x || y of the stretched key"
+            try:
+                electrum.old_master_prv_key_from_mnemonic(sp, "pass")
+            except BTClibValueError:
+                continue
+            return False, "a passphrase is accepted for a pre-2.0 seed"
+    return True, f"{len(want)} words"
+
+
 def _o_slip39_set(w):
     """every listed selection: qualifying -> the secret (and another secret under a wrong passphrase),
     non-qualifying -> BTClibValueError."""
@@ -903,7 +991,7 @@ def _guarded(name, fn):
     return run
 
 
-ORACLES = {"electrum.text": _o_electrum_text, "electrum.spelling": _o_electrum_spelling, "bip39.text": _o_bip39_text,
+ORACLES = {"electrum.old": _o_electrum_old, "electrum.text": _o_electrum_text, "electrum.spelling": _o_electrum_spelling, "bip39.text": _o_bip39_text,
            "electrum.version": _o_electrum_version, "bip85.apps": _o_bip85_apps, "slip39.kdf": _o_slip39_kdf, "dispatch.lang": _o_dispatch, "wordlist.bijection": _o_wordlist, "bip39.roundtrip": _o_bip39_roundtrip,
            "bip39.substitution": _o_bip39_substitution, "electrum.roundtrip": _o_electrum_roundtrip,
            "slip39.set": _o_slip39_set, "slip39.substitution": _o_slip39_substitution,
@@ -1326,6 +1414,39 @@ def run(ctx):
     ctx.stream("electrum.index", lines)
     ctx.stream("electrum.seed", seed_lines)
 
+    # --- Electrum's pre-2.0 codec: model vs btclib at index level, and the real code against old_mnemonic rewritten
+    lines = []
+    edge = [0, 1, 1625, 1626, 1626 ** 2 - 1, 1626 ** 2, 2 ** 32 - 1, 2 ** 31, 1626 ** 3 - 2 ** 32]
+    for j in range(ctx.n(60, 600)):
+        ng = rng.choice([4, 4, 8, 8, 0, 1, 3, 5, 16])
+        gs = [rng.choice(edge) if rng.random() < 0.25 else rng.getrandbits(32) for _ in range(ng)]
+        lines.append(f"electrum.old.enc {nats(gs)}")
+        nw = rng.choice([12, 12, 24, 24, 0, 3, 11, 13, 23, 36])
+        idx = [rng.choice([0, 1, 1625]) if rng.random() < 0.2 else rng.randrange(1626) for _ in range(nw)]
+        if nw in (12, 24) and rng.random() < 0.3:
+            # a triple that decodes ABOVE 32 bits (third offset 1625, second offset high): 9 hex characters
+            k = 3 * rng.randrange(nw // 3)
+            idx[k + 1] = (idx[k] + rng.randrange(1300, 1626)) % 1626
+            idx[k + 2] = (idx[k + 1] + 1625) % 1626
+        try:
+            bytes.fromhex(" ".join(_old_wl()[i] for i in idx))
+            continue                       # a sentence that is itself hex is handed back as it is: not modelled
+        except ValueError:
+            pass
+        lines.append(f"electrum.old.dec {nats(idx)}")
+        wide = any(a + 1626 * ((b - a) % 1626) + 1626 * 1626 * ((c - b) % 1626) >= 2 ** 32
+                   for a, b, c in zip(idx[0::3], idx[1::3], idx[2::3]))
+        ctx.count("electrum.old", f"dec:{nw}:{'a group above 32 bits' if wide else 'plain'}")
+    ctx.stream("electrum.old", lines)
+    for j in range(ctx.n(12, 120)):
+        nb = [16, 32, 16, 32, 4, 20][j % 6]
+        hs = common.rand_bytes(rng, nb).hex()
+        if j % 4 == 1:
+            hs = "".join(f"{rng.choice(edge) % 2 ** 32:08x}" for _ in range(nb // 4))
+        m = " ".join(T.ref_old_encode(hs))
+        sp = [T.respell(rng, m, "electrum") for _ in range(2)] if nb in (16, 32) else []
+        ctx.check("electrum.old", {"hex": hs, "spellings": sp, "stretch": j < ctx.n(2, 6)})
+
     # --- seeds and master keys on hostile text: independent Electrum / BIP39 key stretching (harness/c13_text.py) ---
     def sens(kind, *texts):
         for t in texts:
@@ -1431,6 +1552,15 @@ def run(ctx):
         for words in (12, 15, 18, 21, 24) if lang in BIP85_LANGUAGE_TABLE else (12,):
             lines.append(f"bip85.path {lang} {words} {idx85} {root}")
     lines.append(f"bip85.path en 13 0 {root}")
+    # sized applications: HEX through the model (bounds, truncation), every bound of HEX / PWD BASE64 / PWD BASE85
+    for n in [15, 16, 17, 32, 63, 64, 65, 0] + [rng.randrange(16, 65) for _ in range(ctx.n(4, 40))]:
+        i85 = rng.getrandbits(rng.choice([1, 8, 31]))
+        k = _child_key(root, f"m/83696968h/128169h/{n}h/{i85}h")
+        lines.append(f"bip85.hex {hx(k)} {n} {root} {i85}")
+    for fn, (lo, hi) in (("bytes_entropy_from_root_key", (16, 64)), ("base64_password_from_root_key", (20, 86)),
+                         ("base85_password_from_root_key", (10, 80))):
+        for size in (lo - 1, lo, lo + 1, hi - 1, hi, hi + 1, rng.randrange(lo, hi + 1)):
+            lines.append(f"bip85.sized {fn} {size} {rng.getrandbits(8)}")
     ctx.stream("bip85", lines)
 
     # --- dispatch: the BIP39 verdict is about the language the caller names ---------------------------------
